@@ -100,6 +100,22 @@ func (c *fctx) call(t *ast.CallExpr) string {
 		return c.sprintf(t)
 	case "(time.Duration).Seconds":
 		bad("time.Duration.Seconds outside uint32(d.Seconds()) at %s", c.site(t.Pos()))
+	case "regexp.MustCompile":
+		return c.regexLit(t)
+	case "(*regexp.Regexp).ReplaceAllString":
+		return "(Go.reReplaceAll " + recv() + " " + arg(0) + " " + arg(1) + ")"
+	case "(*regexp.Regexp).MatchString":
+		return "(Go.reMatch " + recv() + " " + arg(0) + ")"
+	case "(net.IP).String":
+		return "(Go.ipString " + recv() + ")"
+	case "(net.IPMask).String":
+		return "(Go.maskString " + recv() + ")"
+	case "strings.Join":
+		return "(Go.stringsJoin " + arg(0) + " " + arg(1) + ")"
+	case "strings.SplitN":
+		if tv := c.info.Types[t.Args[2]]; tv.Value != nil && tv.Value.ExactString() == "2" {
+			return "(Go.stringsSplitN2 " + arg(0) + " " + arg(1) + ")"
+		}
 	case "net.ParseIP": // uninterpreted: the standard library's parser (trusted; the harness parses with the same function)
 		return "(Go.parseIP " + arg(0) + ")"
 	case "strings.Split":
@@ -194,6 +210,11 @@ func (c *fctx) userCall(ci *FuncInfo, t *ast.CallExpr, args []string) string {
 }
 
 func (c *fctx) convert(arg ast.Expr, to types.Type, whole *ast.CallExpr) string {
+	if call, ok := arg.(*ast.CallExpr); ok && c.x.kindOf(to) == kInt {
+		if f := calleeFunc(c.info, call); f != nil && f.FullName() == "(time.Duration).Seconds" {
+			return "(Go.durSecondsInt " + c.expr(call.Fun.(*ast.SelectorExpr).X) + ")" // int(d.Seconds()), integer reading (trusted as durSecondsU32)
+		}
+	}
 	if call, ok := arg.(*ast.CallExpr); ok && c.x.kindOf(to) == kU32 {
 		if f := calleeFunc(c.info, call); f != nil && f.FullName() == "(time.Duration).Seconds" {
 			// uint32(d.Seconds()): float64 seconds truncated; the Prelude's integer reading is trusted (DESIGN §13.3)
@@ -371,4 +392,63 @@ func (c *fctx) sprintf(t *ast.CallExpr) string {
 		return "([] : Bytes)"
 	}
 	return "(" + strings.Join(parts, " ++ ") + ")"
+}
+
+// regexLit: regexp.MustCompile of a constant pattern of the form `[class]` or `^[class]+$` (class: literals, a-z ranges,
+// backslash escapes, leading ^ for negation).  Anything else is refused.
+func (c *fctx) regexLit(t *ast.CallExpr) string {
+	tv := c.info.Types[t.Args[0]]
+	if tv.Value == nil || tv.Value.Kind() != constant.String {
+		bad("regexp.MustCompile of a non-constant at %s", c.site(t.Pos()))
+	}
+	pat := constant.StringVal(tv.Value)
+	whole := false
+	if strings.HasPrefix(pat, "^[") && strings.HasSuffix(pat, "]+$") {
+		whole = true
+		pat = pat[1 : len(pat)-2]
+	}
+	if !strings.HasPrefix(pat, "[") || !strings.HasSuffix(pat, "]") || len(pat) < 3 {
+		bad("regular expression %q at %s", constant.StringVal(tv.Value), c.site(t.Pos()))
+	}
+	body := pat[1 : len(pat)-1]
+	neg := false
+	if strings.HasPrefix(body, "^") {
+		neg = true
+		body = body[1:]
+	}
+	var items []int // code points; -1 marks "range operator"
+	for i := 0; i < len(body); i++ {
+		ch := body[i]
+		switch {
+		case ch >= 0x80 || ch == '[' || ch == ']':
+			bad("regular expression %q at %s", constant.StringVal(tv.Value), c.site(t.Pos()))
+		case ch == '\\':
+			if i+1 >= len(body) || strings.IndexByte(".-\\]^[,_", body[i+1]) < 0 {
+				bad("regular expression escape in %q at %s", constant.StringVal(tv.Value), c.site(t.Pos()))
+			}
+			i++
+			items = append(items, int(body[i]))
+		case ch == '-' && len(items) > 0 && items[len(items)-1] >= 0 && i+1 < len(body):
+			items = append(items, -1)
+		default:
+			items = append(items, int(ch))
+		}
+	}
+	var ranges []string
+	for i := 0; i < len(items); i++ {
+		if i+2 < len(items) && items[i+1] == -1 {
+			hi := items[i+2]
+			if hi < items[i] {
+				bad("regular expression range in %q at %s", constant.StringVal(tv.Value), c.site(t.Pos()))
+			}
+			ranges = append(ranges, fmt.Sprintf("(%d, %d)", items[i], hi))
+			i += 2
+			continue
+		}
+		if items[i] == -1 {
+			bad("regular expression %q at %s", constant.StringVal(tv.Value), c.site(t.Pos()))
+		}
+		ranges = append(ranges, fmt.Sprintf("(%d, %d)", items[i], items[i]))
+	}
+	return fmt.Sprintf("({ neg := %t, ranges := [%s], whole := %t } : Go.Regex)", neg, strings.Join(ranges, ", "), whole)
 }
